@@ -57,7 +57,9 @@ type Kind struct {
 
 func tp(t string, p int32) string { return t + "/" + strconv.Itoa(int(p)) }
 
-// partition lists per shape for topic t (3 partitions) and unknown topic u.
+// partition lists per shape for topic t (3 partitions), topic s (1 partition,
+// led by the leader of t/0, so that one broker answers for two topics) and
+// unknown topic u.
 type tps struct {
 	topic string
 	parts []int32
@@ -66,11 +68,11 @@ type tps struct {
 func shapeTPs(shape string) []tps {
 	switch shape {
 	case ShapeAll:
-		return []tps{{"t", []int32{0, 1, 2}}}
+		return []tps{{"t", []int32{0, 1, 2}}, {"s", []int32{0}}}
 	case ShapeUnk:
-		return []tps{{"t", []int32{0, 1, 2, 7}}, {"u", []int32{0}}}
+		return []tps{{"t", []int32{0, 1, 2, 7}}, {"u", []int32{0}}, {"s", []int32{0}}}
 	case ShapeDup:
-		return []tps{{"t", []int32{0, 1, 2, 1}}}
+		return []tps{{"t", []int32{0, 1, 2, 1}}, {"s", []int32{0}}}
 	case ShapeOne:
 		return []tps{{"t", []int32{1}}}
 	}
@@ -466,13 +468,13 @@ var Kinds = []*Kind{
 			}
 			switch shape {
 			case ShapeAll:
-				mk(100, tps{"t", []int32{0, 1}})
+				mk(100, tps{"t", []int32{0, 1}}, tps{"s", []int32{0}})
 				mk(101, tps{"t", []int32{1, 2}})
 			case ShapeUnk:
-				mk(100, tps{"t", []int32{0, 1, 7}})
+				mk(100, tps{"t", []int32{0, 1, 7}}, tps{"s", []int32{0}})
 				mk(101, tps{"t", []int32{1, 2}}, tps{"u", []int32{0}})
 			case ShapeDup:
-				mk(100, tps{"t", []int32{0, 1, 1}})
+				mk(100, tps{"t", []int32{0, 1, 1}}, tps{"s", []int32{0}})
 				mk(101, tps{"t", []int32{1, 2}})
 			case ShapeOne:
 				mk(101, tps{"t", []int32{1}})
